@@ -768,8 +768,7 @@ def _set_pre(pre, gstep):
 
 def _state():
     pb = lib.pb
-    import py_ballisticcalc.trajectory_calc as tc
-    return ({s: getattr(pb.PreferredUnits, s) for s in SLOTS}, tc._globalMaxCalcStepSizeFeet)
+    return ({s: getattr(pb.PreferredUnits, s) for s in SLOTS}, lib.global_step_feet())
 
 
 def _one_load(spec, load, pkgdir):
